@@ -143,7 +143,7 @@ def gen_cases(tier, seed):
                 # an explicit None given by keyword: the parameter is left out of the package (also where the field's default is not None)
                 cases.append({"target": name, "kind": "ideal" if prim.primtype.name == "IDEAL" else "physical", "set": {field: 0}, "pool": "none"})
             elif "str" in dt:
-                for k in range(3):
+                for k in range(5):
                     cases.append({"target": name, "kind": "ideal" if prim.primtype.name == "IDEAL" else "physical", "set": {field: k}, "pool": "str"})
     # (a)/(b) external modules
     for k in range(len(sc)):
@@ -155,6 +155,10 @@ def gen_cases(tier, seed):
             cases.append({"target": "IdealResistor", "kind": "ideal", "set": {"r": k}, "pool": "pair", "order": order, "which": 1})
             cases.append({"target": "ExtDict", "kind": "extdict", "set": {"x": k}, "pool": "pair", "order": order, "which": 0})
             cases.append({"target": "ExtDict", "kind": "extdict", "set": {"x": k}, "pool": "pair", "order": order, "which": 1})
+        # ... and the judged instance is an ARRAY whose call equals, but is written differently from, that of a plain instance met before it
+        for which in (0, 1):
+            cases.append({"target": "IdealResistor", "kind": "ideal", "set": {"r": k}, "pool": "pair", "order": 0, "which": which, "arr": True})
+            cases.append({"target": "ExtClass", "kind": "extclass", "set": {"s": k}, "pool": "pair", "order": 0, "which": which, "arr": True})
     for k in range(12):
         cases.append({"target": "ExtDict", "kind": "extdict", "set": {"x": k}, "pool": "misc"})
         cases.append({"target": "ExtClass", "kind": "extclass", "set": {"m": k}, "pool": "misc_class"})
@@ -196,7 +200,9 @@ def run_case(args):
         elif case["pool"] == "none":
             v, d = None, desc("none")
         elif case["pool"] == "str":
-            v, d = [("mymodel", desc("str", b=B("mymodel"))), ("a b", desc("str", b=B("a b"))), (None, desc("none"))][k]
+            v, d = [("mymodel", desc("str", b=B("mymodel"))), ("a b", desc("str", b=B("a b"))), (None, desc("none")),
+                    # text that begins / ends with white space is text all the same
+                    (" 'vdd / 2' ", desc("str", b=B(" 'vdd / 2' "))), ("\tm1\n", desc("str", b=B("\tm1\n")))][k]
         else:
             v, d = misc[k]
         m = h.Module(name="T")
@@ -226,11 +232,17 @@ def run_case(args):
                 m = h.Param(dtype=object, desc="m", default=None)
             em = h.ExternalModule(name="ExtClass", port_list=[h.Port(name="a")], paramtype=PX, desc="x", domain="verif")
             call = em(**{field: v})
+            ocall = em(**{field: other}) if other is not None else None
             ports = ["a"]
             params = call.params
         ev["stage"] = "export"
         m.s = h.Signal()
-        if other is not None and case["kind"] != "extclass":
+        if other is not None and case.get("arr"):
+            m.j = ocall(**{p: m.s for p in ports})
+            arr = h.InstanceArray(of=call, n=2)
+            arr(**{p: m.s for p in ports})
+            m.i = arr
+        elif other is not None and case["kind"] != "extclass":
             # the equal-valued, differently written sibling is exported first or second
             if case["order"] == 0:
                 m.j = ocall(**{p: m.s for p in ports})
@@ -241,7 +253,7 @@ def run_case(args):
         else:
             m.i = call(**{p: m.s for p in ports})
         pkg = h.to_proto(m)
-        pi = [x for x in pkg.modules[-1].instances if x.name == "i"][0]
+        pi = [x for x in pkg.modules[-1].instances if x.name in ("i", "i_0", "i_1")][-1]
         ev["refdomain"] = pi.module.external.domain
         ev["refname"] = pi.module.external.name
         ev["out"] = [{"name": p.name, "val": out_value(p.value)} for p in pi.parameters]
